@@ -324,9 +324,78 @@ fn run_pair(c: &PairCase) -> Result<(), (String, String)> {
     Ok(())
 }
 
+
+/// The ring backend as the only source of ciphers and hashes (DH and RNG from a partial default resolver): a name
+/// is buildable iff ring documents both its cipher and its hash, the refusal comes at build time, and what was
+/// built really speaks the named protocol (it completes a handshake with a default-resolver peer).
+fn ring_only_builds(ctx: &Ctx) {
+    use snow::resolvers::RingResolver;
+    for c in ["ChaChaPoly", "AESGCM", "XChaChaPoly"] {
+        for h in ["SHA256", "SHA512", "BLAKE2s", "BLAKE2b"] {
+            for pat in ["NN", "XX", "NNpsk0"] {
+                let name = format!("Noise_{pat}_25519_{c}_{h}");
+                let documented = c != "XChaChaPoly" && h.starts_with("SHA");
+                ctx.add(&ctx.evaluations, 1);
+                let mk = |ring: bool, init: bool| -> Result<snow::HandshakeState, snow::Error> {
+                    let res: BoxedCryptoResolver = if ring { Box::new(FallbackResolver::new(Box::new(RingResolver), Box::new(Partial { rng: true, dh: true, cipher: false, hash: false }))) } else { Box::new(DefaultResolver) };
+                    let mut b = Builder::with_resolver(name.parse()?, res);
+                    let sk = crate::exec::key_bytes(if init { 1 } else { 2 });
+                    if pat == "XX" {
+                        b = b.local_private_key(&sk)?;
+                    }
+                    if pat == "NNpsk0" {
+                        b = b.psk(0, &[9u8; 32])?;
+                    }
+                    if init {
+                        b.build_initiator()
+                    } else {
+                        b.build_responder()
+                    }
+                };
+                let r = std::panic::catch_unwind(std::panic::AssertUnwindSafe(|| mk(true, true)));
+                match (r, documented) {
+                    (Ok(Err(_)), false) => {
+                        ctx.add(&ctx.nontrivial, 1);
+                    },
+                    (Ok(Ok(_)), false) => ctx.violation("build succeeded although the resolver does not provide a named primitive", format!("{name} with ring as the only source of ciphers and hashes"), json!({"kind": "ring-only"})),
+                    (Ok(Err(e)), true) => ctx.violation("build failed although the resolver provides every named primitive", format!("{name} with ring ciphers and hashes: {e:?}"), json!({"kind": "ring-only"})),
+                    (Ok(Ok(mut i)), true) => {
+                        ctx.add(&ctx.nontrivial, 1);
+                        // what was built must be the named protocol: talk to a default-resolver responder
+                        let ok = (|| -> Result<(), snow::Error> {
+                            let mut r = mk(false, false)?;
+                            let (mut m, mut o) = (vec![0u8; 1024], vec![0u8; 1024]);
+                            let n_msgs = if pat == "XX" { 3 } else { 2 };
+                            for k in 0..n_msgs {
+                                if k % 2 == 0 {
+                                    let l = i.write_message(b"x", &mut m)?;
+                                    r.read_message(&m[..l], &mut o)?;
+                                } else {
+                                    let l = r.write_message(b"y", &mut m)?;
+                                    i.read_message(&m[..l], &mut o)?;
+                                }
+                            }
+                            let (mut ti, mut tr) = (i.into_transport_mode()?, r.into_transport_mode()?);
+                            let l = ti.write_message(b"ping", &mut m)?;
+                            tr.read_message(&m[..l], &mut o)?;
+                            Ok(())
+                        })();
+                        if let Err(e) = ok {
+                            ctx.violation("a state built from a resolver that claims every named primitive does not speak the named protocol", format!("{name} with ring ciphers and hashes against a default-resolver peer: {e:?}"), json!({"kind": "ring-only"}));
+                        }
+                    },
+                    (Err(_), _) => {}, // a panic is C10's business
+                }
+            }
+        }
+    }
+}
+
 pub fn run(tier: Tier) -> i32 {
     let ctx = Ctx::new("C12", tier, "model_checking");
-    ctx.set_rule("finite product enumerated completely: 38 patterns x 2 roles x 4 subsets of {local static, remote static} x psk modifier (none, psk0..psk9, every valid pair, fallback forms) x subsets of the listed psks supplied at build x 7 resolvers (complete, lacking rng/dh/cipher/hash, two FallbackResolver compositions) x DH {25519, P256, 448}; oracle derived from the spec pattern text; then the honest handshake of every successfully built pair (no MissingKeyMaterial), psk omitted on either side (MissingPsk exactly at the message that needs it, all-zero substitute must not complete, set_psk then completes)");
+    ctx.set_rule("finite product enumerated completely: 38 patterns x 2 roles x 4 subsets of {local static, remote static} x psk modifier (none, psk0..psk9, every valid pair, fallback forms) x subsets of the listed psks supplied at build x 7 resolvers (complete, lacking rng/dh/cipher/hash, two FallbackResolver compositions) x DH {25519, P256, 448}; oracle derived from the spec pattern text; the built-in resolvers themselves: DefaultResolver / RingResolver provide exactly their documented primitives and hand out the named ones, and with ring as the only source of ciphers and hashes a name builds iff ring documents both (and then talks to a default-resolver peer); then the honest handshake of every successfully built pair (no MissingKeyMaterial), psk omitted on either side (MissingPsk exactly at the message that needs it, all-zero substitute must not complete, set_psk then completes)");
+    ring_only_builds(&ctx);
+    super::c20::builtin_table(&ctx);
     let pats = patterns::base_patterns();
     let mut cases: Vec<Case> = vec![];
     let dhs: &[&str] = &["25519", "P256"];
@@ -414,6 +483,15 @@ pub fn replay(case: &serde_json::Value) -> Result<(), String> {
     let r = match case["kind"].as_str() {
         Some("build") => judge_build(&serde_json::from_value(case["case"].clone()).map_err(|e| e.to_string())?).map(|_| ()),
         Some("pair") => run_pair(&serde_json::from_value(case["case"].clone()).map_err(|e| e.to_string())?),
+        Some("ring-only") | Some("builtin") => {
+            let ctx = Ctx::new("C12", Tier::Quick, "model_checking");
+            ring_only_builds(&ctx);
+            super::c20::builtin_table(&ctx);
+            return match ctx.violations.lock().unwrap().first() {
+                Some(v) => Err(format!("{}: {}", v.signature, v.detail)),
+                None => Ok(()),
+            };
+        },
         _ => return Err("bad case".into()),
     };
     r.map_err(|(s, d)| format!("{s}: {d}"))
